@@ -35,7 +35,8 @@ import deep.logging
 from deep.api.tracepoint.eventsnapshot import WATCH_SOURCE_CAPTURE
 from deep.logging import logging
 from deep.api.tracepoint import WatchResult, Variable
-from deep.processor.variable_set_processor import VariableSetProcessor, VariableCacheProvider
+from deep.processor.variable_set_processor import VariableSetProcessor, VariableCacheProvider, \
+    VariableProcessorConfig
 from deep.utils import str2bool
 
 if TYPE_CHECKING:
@@ -58,6 +59,12 @@ class ActionContext(abc.ABC):
         self._triggered = False
         # every action collects into its own variable table, so its ids never point into another action's table
         self.var_cache = VariableCacheProvider()
+        self._collection_config = VariableProcessorConfig()
+
+    @property
+    def collection_config(self) -> VariableProcessorConfig:
+        """The limits used when this action collects the value of a watch, log field or capture."""
+        return self._collection_config
 
     def __enter__(self):
         """Enter and open the context."""
@@ -76,7 +83,7 @@ class ActionContext(abc.ABC):
         :param watch: The watch expression to evaluate.
         :return: Tuple with WatchResult, collected variables, and the log string for the expression
         """
-        var_processor = VariableSetProcessor({}, self.var_cache)
+        var_processor = VariableSetProcessor({}, self.var_cache, self.collection_config)
 
         try:
             result = self.trigger_context.evaluate_expression(watch)
@@ -98,7 +105,7 @@ class ActionContext(abc.ABC):
         :param variable: the value to process
         :return: Tuple with WatchResult, collected variables, and the log string for the expression
         """
-        var_processor = VariableSetProcessor({}, self.var_cache)
+        var_processor = VariableSetProcessor({}, self.var_cache, self.collection_config)
         variable_id, log_str = var_processor.process_variable(name, variable)
         if variable_id.vid is None:
             # the variable limit was reached before this value could be collected
